@@ -230,7 +230,7 @@ def r3_6(cx):
     """what the pipe stands on: the sliding deque of slices (R15.1-R15.6), the tombstoned map of placeholders (R16.1-R16.4), an allocator that serves every size (R17.7)"""
     from . import c15, c16, c17, c05
     compose(cx, [('R15.1', c15.r15_1), ('R15.2', c15.r15_2), ('R15.3', c15.r15_3), ('R15.4', c15.r15_4), ('R15.5', c15.r15_5), ('R15.6', c15.r15_6), ('R15.7', c15.r15_7), ('R15.8', c15.r15_8),
-                 ('R16.1', c16.r16_1), ('R16.2', c16.r16_2), ('R16.3', c16.r16_3), ('R16.4', c16.r16_4), ('R17.7', c17.r17_7), ('R5.4', c05.r5_4)])
+                 ('R16.1', c16.r16_1), ('R16.2', c16.r16_2), ('R16.3', c16.r16_3), ('R16.4', c16.r16_4), ('R17.7', c17.r17_7), ('R5.4', c05.r5_4), ('R5.7', c05.r5_7), ('R5.8', c05.r5_8)])
 
 
 RULES = [('R3.1', r3_1), ('R3.2', r3_2), ('R3.3', r3_3), ('R3.4', r3_4), ('R3.5', r3_5), ('R3.6', r3_6)]
